@@ -900,24 +900,25 @@ class C04(core.Check):
                  "interpreter) about a hand model of draw_screen/_last_row/_attrspec_to_escape; exact token-stream "
                  "correspondence with the real Screen on every frame; independent Python terminal interpreter fed with "
                  "the real bytes as oracle; HTML back-end judged by the oracle only")
-    level_text = ("Proved in Coq (Properties/C04.v, closed under the global context), for full-screen mode, every screen "
-                  "size >= 1x1, every attribute table / colour depth / bright-is-bold / bright-is-blink / BCE setting, "
-                  "UTF-8 canvases with characters of width 1 and 2 and narrow 8-bit encodings with charset flags None and "
-                  "'0': (sgr_means_visual_attribute) the SGR list of every AttrSpec sets exactly its visual attribute; "
+    level_text = ("Proved in Coq (Properties/C04.v, closed under the global context), for every screen size >= 1x1, every "
+                  "attribute table / colour depth / bright-is-bold / bright-is-blink / BCE setting, UTF-8 canvases with "
+                  "characters of width 1 and 2 and narrow 8-bit encodings with charset flags None, '0' and 'U': "
+                  "(sgr_means_visual_attribute) the SGR list of every AttrSpec sets exactly its visual attribute; "
                   "(draw_paints) from ANY state where Screen object and terminal agree, the tokens of one draw_screen make "
                   "the reference terminal show the canvas in every cell under visual equality, cursor shown at the canvas "
                   "cursor or hidden, no scrolling, agreement re-established - covering the row diff, the EL shortcut and "
-                  "the bottom-right insert trick; (history_paints, history_keeps_sync) for every history of draws, redraws "
-                  "of the same canvas object, clear() over arbitrary terminal contents and size changes; "
-                  "(incremental_eq_full) incremental redraw and forced full repaint paint the same picture; "
-                  "(redraw_same_canvas_writes_nothing); (html_exact) the HTML back-end's spans carry exactly the canvas text row "
-                  "by row with at most one one-character span swapped, for every canvas and cursor.  REFUTED with machine-checked witnesses replayed on the "
-                  "implementation (known findings): draw_paints_charset_u_full (IBMPC charset 'U' leaks into the next "
-                  "frame) and draw_paints_partial_full (partial display: _cy stale after a cursorless frame).  NOT proved, "
-                  "statement kept (draw_paints_any_text_full): zero-width and C0 control characters.  Correspondence/oracle "
-                  "only: everything above on the real code (exact token streams, all five colour depths, utf-8/ascii/"
-                  "iso8859-1, partial display, widgets); for the HTML back-end the escaping, the colour strings and the position "
-                  "of the highlighted cell (oracle: unescaped text = canvas text, colours per run, highlight at the cursor).")
+                  "the bottom-right insert trick; (history_paints, history_keeps_sync, draws_paint_fullscreen) for every "
+                  "history of draws, redraws of the same canvas object, clear() over arbitrary terminal contents and size "
+                  "changes; (incremental_eq_full) incremental redraw and forced full repaint paint the same picture; "
+                  "(redraw_same_canvas_writes_nothing); (draw_paints_partial, draws_paint_partial, "
+                  "partial_clear_keeps_sync) partial display mode with the display origin on terminal row 0: rows "
+                  "0.._rows_used shown (a blank canvas row left off the display is demanded as blank text only), rows below "
+                  "blank, cursor, no scrolling, for every history of draws and clear(); (html_exact) the HTML back-end's "
+                  "spans carry exactly the canvas text row by row with at most one one-character span swapped, for every "
+                  "canvas and cursor.  NOT proved, statement kept (draw_paints_any_text_full): zero-width and C0 control "
+                  "characters.  Correspondence/oracle only: everything above on the real code (exact token streams, all "
+                  "five colour depths, utf-8/ascii/iso8859-1, widgets), partial display with an origin below row 0, and for "
+                  "the HTML back-end the escaping, the colour strings and the position of the highlighted cell.")
     level_note = ("Trusted: Coq kernel; the hand-written model (tied by exact correspondence, not proved against Python); "
                   "TermRef.v as the definition of 'VT100/xterm-compatible' for the modelled subset (cross-checked against a "
                   "second, independently parsed Python interpreter on real and random streams); the harness decoding of "
@@ -931,7 +932,7 @@ class C04(core.Check):
             "{default, standout} up to 4 (thorough 5) columns as only/bottom/top row, BCE on/off; non-trivial = some "
             "frame wrote tokens; distinct by hash of (case, outcome)")
     trusted_base = [
-        "Coq 8.16.1 kernel (coqc; vm_compute only in closed examples and the two refutation witnesses)",
+        "Coq 8.16.1 kernel (coqc; vm_compute only in closed examples)",
         "hand-written Model/DrawScreen.v and Model/HtmlGen.v (validated by the exact token / span correspondence on every case, "
         "not proved against Python)",
         "Model/TermRef.v as the meaning of a VT100/xterm-compatible terminal for the modelled subset "
@@ -1097,7 +1098,7 @@ class C04(core.Check):
             C04._html_memo = (core.canon(case), colours)
             cur = case.get("cursor")
             out = [3, case["rows"] + (1 if case.get("badrows") else 0)] + ([0] if cur is None else [1, cur[0], cur[1]])
-            out += [len(kinds)] + kinds + [len(out_rows)]
+            out += [len(out_rows)]
             for r in out_rows:
                 out += r
             return out
